@@ -1,10 +1,17 @@
 import Drivers.Proto
 import St4sd.Model.Confine
+import St4sd.Model.C18Keys
+import St4sd.Model.C18Stagers
 /-! Model driver for property C18.
 
 Requests (all paths are strings; the sandbox root is written `/S` by the harness):
 * `{"op":"extract","fixed":bool,"dest":"/S/..","fs":[[path,kind,target],..],"members":[[kind,name,target],..]}`
-* `{"op":"deploy","fixed":bool,"validate":bool,"target":"/S/..","fs":[..],"entries":[[key,src,method],..],"confIsKey":bool}`
+* `{"op":"deploy","fixed":bool,"target":"/S/..","fs":[..],"steps":[{"entries":[[key text,src,method],..],"validate":bool},..]}`
+  — a history of deployments into the same target (`deployHistory`, keys as text: `Model/C18Keys.lean`); the answer
+  carries `results` (one per deployment) and `result` (the last one)
+* `{"op":"stagers","fs":[..],"stagers":[{"dest":..,"members":[..]},{"dest":..,"members":[..]}],"schedule":[0|1,..]}`
+  — two extractions interleaved member by member (`runStagers`, `Model/C18Stagers.lean`); the answer carries
+  `results` and `logs` (one per stager) and the tree
 * `{"op":"copy"|"link","dest":..,"fs":..,"ref":"..","kind":"file"|"dir"}`
 Answer: `{"result":"ok"|"rejected"|"os"|"linkMissing","tree":[[path,kind,target],..],"log":[path,..]}` with the tree
 restricted to locations reachable by listing (every bound location whose ancestors are directories), sorted.
@@ -51,12 +58,17 @@ def parseMember (r : Json) : Except String Member := do
   | "hard" => return Member.hard n t
   | _ => throw s!"unknown member kind {k}"
 
-def parseEntry (r : Json) : Except String Entry := do
+def parseEntry (r : Json) : Except String KEntry := do
   let a ← r.getArr?
-  let key := parsePath (← (a[0]!).getStr?).toList
+  let key := (← (a[0]!).getStr?).toList
   let src := (parsePath (← (a[1]!).getStr?).toList).segs
   let m ← (a[2]!).getStr?
   return { key := key, src := src, method := if m == "link" then Method.link else Method.copy }
+
+def parseStep (j : Json) : Except String Deployment := do
+  let es ← (← getArr j "entries").mapM parseEntry
+  let v ← getBool j "validate"
+  return { entries := es, validate := v }
 
 /-- distinct bound locations, first binding wins -/
 def keysOf (fs : Fs) : List Path := fs.foldl (fun acc (p, _) => if acc.contains p then acc else p :: acc) []
@@ -78,13 +90,18 @@ def treeJson (fs : Fs) : Json :=
   let sorted := rows.toArray.qsort (fun a b => a.1 < b.1)
   jarr (sorted.toList.map fun (p, k, t) => jarr [jstr p, jstr k, jstr t])
 
+def resStr : Option Err → String
+  | none => "ok"
+  | some Err.rejected => "rejected"
+  | some Err.os => "os"
+  | some Err.linkMissing => "linkMissing"
+  | some Err.linkConflict => "linkConflict"
+
+def logJson (log : List Path) : Json :=
+  jarr (((log.map pathStr).toArray.qsort (· < ·)).toList.eraseDups.map jstr)
+
 def answer (r : St × Option Err) : Json :=
-  let res := match r.2 with
-    | none => "ok"
-    | some Err.rejected => "rejected"
-    | some Err.os => "os"
-    | some Err.linkMissing => "linkMissing"
-    | some Err.linkConflict => "linkConflict"
+  let res := resStr r.2
   let log := (r.1.log.map pathStr).toArray.qsort (· < ·)
   jobj [("result", jstr res), ("tree", treeJson r.1.fs), ("log", jarr (log.toList.eraseDups.map jstr))]
 
@@ -129,11 +146,25 @@ def handle (j : Json) : Except String Json := do
                                       ("fixedOk", Json.bool (checkFixed dest ms))])
   | "deploy" =>
     let target := physOf (← getStr j "target")
-    let es ← (← getArr j "entries").mapM parseEntry
+    let steps ← (← getArr j "steps").mapM parseStep
     let fixed ← getBool j "fixed"
-    let validate ← getBool j "validate"
-    let k ← getBool j "confIsKey"
-    return answer (if validate then loadAndDeploy fixed target ⟨fs, []⟩ es k else deploy fixed target ⟨fs, []⟩ es k)
+    let r := deployHistory fixed target ⟨fs, []⟩ steps
+    return (answer (r.1, r.2.getLast?.getD none)).mergeObj (jobj [("results", jarr (r.2.map fun x => jstr (resStr x)))])
+  | "stagers" =>
+    let sts ← (← getArr j "stagers").mapM fun sj => do
+      let d := physOf (← getStr sj "dest")
+      let ms ← (← getArr sj "members").mapM parseMember
+      return (d, ms)
+    let sched ← (← getArr j "schedule").mapM fun x => do
+      let n ← x.getNat?
+      return n != 0
+    match sts with
+    | [(dA, msA), (dB, msB)] =>
+      let w := runStagers fs dA dB msA msB sched
+      return jobj [("results", jarr [jstr (resStr w.a.res), jstr (resStr w.b.res)]),
+                   ("logs", jarr [logJson w.a.log, logJson w.b.log]),
+                   ("tree", treeJson w.fs)]
+    | _ => throw "stagers: exactly two stagers expected"
   | "copy" =>
     let dest := physOf (← getStr j "dest")
     let ref ← getChars j "ref"
